@@ -61,16 +61,20 @@ def apply_negative(case):
         stmts.insert(1 + case["at"] % len(stmts), {"lab": "", "k": "imm16", "mn": "LDX", "val": {"sym": "NOSUCH", "op": "", "c": 0}})
         return prog, neg
     if neg == "second_org":
-        body = [i for i, s in enumerate(stmts) if s["k"] in proggen.INSTR_KINDS]
-        if prog["org"] is None or len(body) < 2:
+        body = [i for i, s in enumerate(stmts) if proggen.size_bounds(s)[0] > 0]
+        if prog["org"] is None or len(body) < 1:
             return prog, None
-        pos = body[1 + case["at"] % (len(body) - 1)]
+        pos = body[case["at"] % len(body)] + 1          # right after some byte-emitting statement (instruction or data)
         stmts.insert(pos, {"lab": "", "k": "org", "addr": (prog["org"] + 0x1000 + case["at2"] * 16) % 0xE000})
         return prog, neg
     if neg == "code_before_org":
         if prog["org"] is None or prog["org"] == 0:
             return prog, None
-        stmts.insert(0, {"lab": "", "k": "inh", "mn": "NOP"})
+        first = [{"lab": "", "k": "inh", "mn": "NOP"}, {"lab": "", "k": "fcb", "vals": [proggen.lit(1)]},
+                 {"lab": "", "k": "rmb", "val": proggen.lit(2)}, {"lab": "", "k": "fcc", "delim": "/", "text": "AB"}][case["at2"] % 4]
+        stmts.insert(0, first)
+        if case["at"] % 3 == 0:
+            stmts.insert(1, {"lab": "ZZQ", "k": "equ", "val": proggen.lit(5)})   # a no-byte statement in between
         return prog, neg
     return prog, None
 
